@@ -55,6 +55,16 @@ class Obj(object):
         self.attrs = {}
         self.attr_log = []      # (attr, value, fq, lineno)
 
+    def clone(self):
+        o = Obj(self.cls, self.name)
+        o.attrs = {k: (list(v) if isinstance(v, list) else v) for k, v in self.attrs.items()}
+        o.attr_log = list(self.attr_log)
+        return o
+
+    def adopt(self, other):
+        self.attrs = other.attrs
+        self.attr_log = other.attr_log
+
     def __repr__(self):
         return "<obj %s>" % self.cls.name
 
@@ -102,7 +112,14 @@ class State(object):
         self.facts = dict(facts or {})      # key of a decided symbolic condition -> bool
 
     def fork(self, cond=None):
-        return State(dict(self.env), self.ret, self.conds + ((cond,) if cond else ()), self.flow, self.facts,
+        env = {}
+        for k, v in self.env.items():
+            if isinstance(v, Obj):
+                v = v.clone()           # per-path object state
+            elif isinstance(v, list):
+                v = list(v)
+            env[k] = v
+        return State(env, self.ret, self.conds + ((cond,) if cond else ()), self.flow, self.facts,
                      self.cond_nf)
 
     @property
@@ -118,6 +135,12 @@ class Ctx(object):
         self.locals = None
         self.loop_depth = 0
         self.mutated = {}       # param name -> new value (stores through a parameter)
+
+
+def _same_attrs(a, b):
+    if set(a.attrs) != set(b.attrs):
+        return False
+    return all(vkey(a.attrs[k]) == vkey(b.attrs[k]) for k in a.attrs)
 
 
 def unk(tag, *args):
@@ -170,6 +193,7 @@ class Interp(object):
         self.notes = []
         self.functions_seen = set()
         self.param_flags = {}           # name -> flags for fresh symbols
+        self.alloc_log = []
         self.rng_instances = 0
         self.draw_counts = {}
         self.drop_eps = True            # additive literals <= 1e-9 are epsilon guards: recorded and dropped
@@ -211,7 +235,36 @@ class Interp(object):
             env[finfo.kwarg] = dict(kwargs)
         states = self.exec_block(finfo.node.body, [State(env, facts=getattr(self, "_inherit_facts", None))], ctx)
         self._last_ctx = ctx
-        return [s for s in states if s.ret is not RAISE]
+        states = [s for s in states if s.ret is not RAISE]
+        self.last_states = states
+        if self_obj is not None and states:
+            objs = [s.env.get("self") for s in states]
+            objs = [o for o in objs if isinstance(o, Obj)]
+            if len(objs) == 1 or (objs and all(_same_attrs(o, objs[0]) for o in objs)):
+                if objs[0] is not self_obj:
+                    self_obj.adopt(objs[0])
+            elif objs:
+                # paths disagree on the object state: attributes that differ become a fully understood `paths` value
+                merged = {}
+                keys = []
+                for o in objs:
+                    for k in o.attrs:
+                        if k not in keys:
+                            keys.append(k)
+                for k in keys:
+                    vals = [o.attrs.get(k, Rat.sym("self." + k, ("attr",))) for o in objs]
+                    if all(vkey(v) == vkey(vals[0]) for v in vals):
+                        merged[k] = vals[0]
+                    elif all(isinstance(v, Rat) for v in vals):
+                        uniq = []
+                        for v in vals:
+                            if not any(vkey(v) == vkey(u) for u in uniq):
+                                uniq.append(v)
+                        merged[k] = Rat.atom(Fn("paths", tuple(uniq)))
+                    else:
+                        merged[k] = unk("paths_attr", k)
+                self_obj.attrs = merged
+        return states
 
     def symbolic_args(self, finfo, flags=None, fixed=None):
         """one Sym per parameter (ignoring defaults), except those in `fixed`."""
@@ -542,6 +595,27 @@ class Interp(object):
             self.loop_log.append((fq, st.lineno, tv, it, o.env, o.conds, o.cond_nf))
         # state after the loop
         after = s
+        # lists built by .append inside the body (one symbolic iteration per live path): keep what the body appended
+        for n, v0 in list(s.env.items()):
+            if isinstance(v0, list):
+                ext = []
+                for o_ in live:
+                    v1 = o_.env.get(n)
+                    if isinstance(v1, list) and len(v1) > len(v0):
+                        ext.extend(v1[len(v0):])
+                if ext:
+                    after.env[n] = v0 + ext
+            elif isinstance(v0, Obj):
+                for k_, a0 in list(v0.attrs.items()):
+                    if isinstance(a0, list):
+                        ext = []
+                        for o_ in live:
+                            o1 = o_.env.get(n)
+                            a1 = o1.attrs.get(k_) if isinstance(o1, Obj) else None
+                            if isinstance(a1, list) and len(a1) > len(a0):
+                                ext.extend(a1[len(a0):])
+                        if ext:
+                            v0.attrs[k_] = a0 + ext
         for n in carried:
             acc = self._accum_terms(st.body, n)
             if acc is not None and n in entry and len(live) == 1 and isinstance(entry[n], Rat):
@@ -610,7 +684,7 @@ class Interp(object):
         return bool(ok_ids)
 
     def _is_read_before_write(self, body, name):
-        """does the loop body use the previous iteration's value of `name`?
+        """May some path through the loop body read `name` before the body has (definitely) written it?
         (the base of a subscript *store* is not a read of the array's contents)"""
         bases = set()
         for st in body:
@@ -621,16 +695,62 @@ class Interp(object):
                         b = b.value
                     if isinstance(b, ast.Name):
                         bases.add(id(b))
-        for st in body:
-            for n in ast.walk(st):
-                if isinstance(n, ast.Name) and n.id == name and id(n) not in bases:
-                    if isinstance(n.ctx, ast.Load):
-                        return True
-                    if isinstance(n.ctx, ast.Store):
-                        if isinstance(st, ast.AugAssign):
-                            return True
-                        return False
-        return False
+
+        def reads(node):
+            return any(isinstance(n, ast.Name) and n.id == name and isinstance(n.ctx, ast.Load) and id(n) not in bases
+                       for n in ast.walk(node))
+
+        def writes_target(t):
+            return any(isinstance(n, ast.Name) and n.id == name and isinstance(n.ctx, ast.Store) for n in ast.walk(t))
+
+        def block(stmts, written):
+            """returns (may_read_before_write, definitely_written_after)"""
+            rbw = False
+            for st in stmts:
+                if isinstance(st, ast.Assign):
+                    if not written and reads(st.value):
+                        rbw = True
+                    for t in st.targets:
+                        if not written and not isinstance(t, ast.Name) and reads(t):
+                            rbw = True
+                        if isinstance(t, ast.Name) and t.id == name or (isinstance(t, (ast.Tuple, ast.List)) and writes_target(t)):
+                            written = True
+                elif isinstance(st, ast.AugAssign):
+                    if not written and (reads(st.value) or (isinstance(st.target, ast.Name) and st.target.id == name) or reads(st.target)):
+                        rbw = True
+                    if isinstance(st.target, ast.Name) and st.target.id == name:
+                        written = True
+                elif isinstance(st, ast.If):
+                    if not written and reads(st.test):
+                        rbw = True
+                    r1, w1 = block(st.body, written)
+                    r2, w2 = block(st.orelse, written)
+                    rbw = rbw or r1 or r2
+                    written = w1 and w2
+                elif isinstance(st, (ast.For, ast.While)):
+                    hdr = st.iter if isinstance(st, ast.For) else st.test
+                    if not written and reads(hdr):
+                        rbw = True
+                    r1, w1 = block(st.body, written)
+                    rbw = rbw or r1
+                    if isinstance(st, ast.For) and writes_target(st.target):
+                        pass
+                elif isinstance(st, ast.Try):
+                    r1, w1 = block(st.body, written)
+                    rbw = rbw or r1
+                    for h in st.handlers:
+                        r2, w2 = block(h.body, written)
+                        rbw = rbw or r2
+                        w1 = w1 and w2
+                    written = w1
+                elif isinstance(st, ast.With):
+                    r1, written = block(st.body, written)
+                    rbw = rbw or r1
+                else:
+                    if not written and reads(st):
+                        rbw = True
+            return rbw, written
+        return block(body, False)[0]
 
     def loop_target_value(self, target, it, tag):
         if isinstance(it, RangeVal):
@@ -1162,6 +1282,10 @@ class Interp(object):
             return res
         if name == "all" or name == "any":
             return Rat.atom(Fn(name, (x,)))
+        if name in ("bit_length", "is_integer", "conjugate", "item", "tolist"):
+            return Rat.atom(Fn("num." + name, (x,) + tuple(_vk(a) for a in args)))
+        if name in STR_METHODS:
+            return Rat.atom(Fn("str." + name, (x,) + tuple(_vk(a) for a in args)))
         return Rat.atom(Fn("?method_" + name, (x,) + tuple(args)))
 
     def call_ext(self, dotted, args, kwargs, e, env, ctx):
@@ -1207,7 +1331,8 @@ def _itkey(it):
     return _vk(it)
 
 
-CMP_NAMES = {"Lt": "<", "LtE": "<=", "Gt": ">", "GtE": ">=", "Eq": "==", "NotEq": "!="}
+STR_METHODS = {"strip", "lstrip", "rstrip", "upper", "lower", "title", "capitalize", "replace", "casefold", "swapcase"}
+CMP_NAMES = {"Lt": "<", "LtE": "<=", "Gt": ">", "GtE": ">=", "Eq": "==", "NotEq": "!=", "In": "in", "NotIn": "not in"}
 
 
 def mk_T(x):
@@ -1618,6 +1743,7 @@ def _indices(I, a, k, e, env, ctx):
 
 @ext("numpy.zeros", "numpy.zeros_like")
 def _zeros(I, a, k, e, env, ctx):
+    I.alloc_log.append((ctx.finfo.fq, norm_text(e.func), a, k, e.lineno))
     return Rat.const(0)
 
 
@@ -1805,6 +1931,22 @@ def _svd(I, a, k, e, env, ctx):
 def _spline(I, a, k, e, env, ctx):
     nm = norm_text(e.func).split(".")[-1]
     return Rat.atom(Fn("spline:" + nm, tuple(a) + tuple(("kw:" + kk, _vk2(v)) for kk, v in sorted(k.items()))))
+
+
+@ext("scipy.fft.next_fast_len", "scipy.fftpack.next_fast_len", "scipy.fftpack.helper.next_fast_len", "scipy.signal.next_fast_len")
+def _next_fast_len(I, a, k, e, env, ctx):
+    # an FFT length >= its argument (zero padding unless the argument is already 'fast'): NOT the identity
+    return Rat.atom(Fn("next_fast_len", tuple(a)))
+
+
+@ext("numpy.triu_indices", "numpy.tril_indices", "numpy.diag_indices", "numpy.triu_indices_from", "numpy.tril_indices_from",
+     "numpy.triu", "numpy.tril", "numpy.trim_zeros", "numpy.unique", "numpy.argsort", "numpy.searchsorted", "numpy.take",
+     "numpy.compress", "numpy.nonzero", "numpy.broadcast_to", "numpy.expand_dims", "numpy.squeeze", "numpy.atleast_2d",
+     "numpy.atleast_1d", "numpy.isscalar", "numpy.ndim", "numpy.shape", "numpy.size", "numpy.issubdtype", "numpy.iscomplexobj",
+     "numpy.isrealobj", "numpy.result_type")
+def _named2(I, a, k, e, env, ctx):
+    nm = norm_text(e.func).split(".")[-1]
+    return Rat.atom(Fn(nm, tuple(_vk2(x) for x in a) + tuple(("kw:" + kk, _vk2(v)) for kk, v in sorted(k.items()))))
 
 
 @ext("numpy.random.default_rng")
